@@ -106,7 +106,8 @@ def run(tier, seed, corrupt=False):
             continue
         need = ["ExecFirm", "Restart"] if mode == "FirmOnly" else ["ExecSoft", "Restart"] if mode == "SoftOnly" \
             else ["ExecFirm", "ExecSoft", "Restart"]
-        vf.require_coverage(r, need)
+        # (the disjuncts of Next are conjoined with UNCHANGED base: TLC reports their coverage under "Next")
+        vf.require_coverage(r, [(n, "Next") for n in need])
         states += r.distinct
         transitions += r.generated
         seen = set()
@@ -148,7 +149,10 @@ def run(tier, seed, corrupt=False):
         if not diffs:
             continue
         # the executor did something the specification does not: C10 is decided on what the rollup saw
-        bad, _, _, _ = property_violations(c["s"]["soft"], c["s"]["firm"], c["s"]["soft"], res["rpc"],
+        # the chain executed so far ends at the soft commitment; in firm-only mode what counts is the firm chain (soft
+        # blocks above it are executed again as firm ones)
+        top = c["s"]["firm"] if c["mode"] == "FirmOnly" else c["s"]["soft"]
+        bad, _, _, _ = property_violations(c["s"]["soft"], c["s"]["firm"], top, res["rpc"],
                                            {c["a"]["h"]} if c["a"]["op"] == "firm" else set())
         if res["result"] in ("panic", "timeout"):
             bad.append(res["result"])
